@@ -4,7 +4,52 @@ from props.jobcommon import *
 from props.c04 import C04
 
 
+def monitor_lanes(case, o):
+    """bursts of raw run() controls in the three lanes: executed urgent first, then high, then normal, FIFO within a lane"""
+    out = []
+    evs = parse_log(o)
+    order = [int(a[0]) for t, ev, a in evs if ev == "mark"]
+    ops = case["ops"]
+    bursts = {}
+    for k, op in enumerate(ops):
+        if op["op"] == "raw" and op["ctrl"] == "SyncFunc":
+            bursts.setdefault(op["at"], []).append((op["mark"], op["prio"], k))
+    for T, items in bursts.items():
+        want = [m for m, p, k in sorted(items, key=lambda x: (-x[1], x[2]))]
+        got = [m for m in order if m in set(want)]
+        if got != [m for m in want if m in set(got)]:
+            out.append(("C10_priority_at_decision / C10_fifo_within_priority: controls of one burst executed in the wrong lane order",
+                        {"burst_at": T, "executed": got, "expected": want}))
+    return out
+
+
+def lanes_cases(r, n):
+    import itertools
+    out = []
+    perms = list(itertools.permutations([0, 1, 2]))
+    for i in range(n):
+        mode = ["parked", "busy", "timer", "busy-running"][i % 4]
+        ops, mark = [], 1
+        if mode in ("timer", "busy-running"):
+            ops.append({"at": 0, "op": "start", "yield": True})
+        if mode in ("busy", "busy-running"):
+            ops.append({"at": 10, "op": "run_async", "mark": 90, "dur": 30, "yield": True})
+        if mode == "timer":
+            ops.append({"at": 10, "op": "stop_with_signal", "sig": "Terminate", "grace": 50, "yield": True})
+        pr = list(perms[(i // 4) % 6]) + [r.choice([0, 1, 2]) for _ in range(r.randint(0, 3))]
+        for p in pr:
+            ops.append({"at": 20, "op": "raw", "ctrl": "SyncFunc", "prio": p, "mark": mark, "yield": False})
+            mark += 1
+        ops[-1]["yield"] = True
+        child = {"self_exit": None, "ignore_all": True} if mode == "timer" else dict(r.choice(CHILD_CLASSES[:5]))
+        out.append({"id": 0, "lanes": True, "script": {"children": [child], "spawn_fail": [], "signal_fail": [], "kill_fail": []},
+                    "ops": ops, "waiters": 1, "tail": 500})
+    return out
+
+
 def monitor(case, o):
+    if case.get("lanes"):
+        return monitor_lanes(case, o)
     out = []
     evs = parse_log(o)
     marks = [int(a[0]) for t, ev, a in evs if ev == "mark"]
@@ -55,6 +100,7 @@ class C10(C04):
                 ops[-1]["yield"] = True
             extra.append({"id": 0, "script": {"children": [dict(r.choice(CHILD_CLASSES))], "spawn_fail": [], "signal_fail": [], "kill_fail": []},
                           "ops": ops, "waiters": 1, "tail": 2000})
+        extra += lanes_cases(r, 48 if tier == "quick" and not deep else 480)
         return job_check(self, "thorough" if deep else tier, seed, monitor, extra)
 
 
